@@ -54,7 +54,7 @@ func (*pipeEng) Cases(thorough bool) int {
 }
 
 func (*pipeEng) Rule() string {
-	return "1-4 probe controllers (Controller / QController) with random inputs over 3 types x 3 ids (weak, strong, destroy-ready by kind or by id; q-primary, q-mapped, q-mapped-destroy-ready), registered before or after start, inputs updated later, optional cached kind, probes busy 0-3 virtual seconds; bursts of 1-6 external writes (create, label/finalizer/phase changes, destroy) between quiescence points; case idx%4==1: 1-2 stall windows (a registration whose Outputs() is held by the harness keeps controllersMu, so the delivery goroutine is parked between lookup and trigger while 2-6 writes with repeated keys pass the dedup goroutine one batch each; the first key is not an input of a chosen victim probe, the repeated keys are), each followed by a quiescence point; case idx%8==3: fan scenario (3 or 5 R probes with a by-kind input on one type + one R probe with a by-ID input on the same type, a stall window whose blocker has a by-kind input on that type and whose writes hit that ID); 2 fixed corpus cases (the two window scenarios in minimal form) run first; non-trivial = a burst with more than one event of one key and a busy probe and at least 3 quiescence points, or a stall window with a repeated key followed by a quiescence point; distinct by hash of the op lines"
+	return "1-4 probe controllers (Controller / QController) with random inputs over 3 types x 3 ids (weak, strong, destroy-ready by kind or by id; q-primary, q-mapped, q-mapped-destroy-ready), registered before or after start, inputs updated later, optional cached kind, probes busy 0-3 virtual seconds; bursts of 1-6 external writes (create, label/finalizer/phase changes, destroy) between quiescence points; case idx%4==1: 1-2 stall windows (a registration whose Outputs() is held by the harness keeps controllersMu, so the delivery goroutine is parked between lookup and trigger while 2-6 writes with repeated keys pass the dedup goroutine one batch each; the first key is not an input of a chosen victim probe, the repeated keys are), each followed by a quiescence point; in a third of the windows the held registration is one that is REJECTED after its first input was added to the dependency database (duplicate input keys; held at the watch set-up of an otherwise unused type in between), so the parked delivery has looked up a controller that will never exist; case idx%8==3: fan scenario (3 or 5 R probes with a by-kind input on one type + one R probe with a by-ID input on the same type, a stall window whose blocker has a by-kind input on that type and whose writes hit that ID); 3 fixed corpus cases (the window scenarios in minimal form) run first; non-trivial = a burst with more than one event of one key and a busy probe and at least 3 quiescence points, or a stall window with a repeated key followed by a quiescence point; distinct by hash of the op lines"
 }
 
 func (*pipeEng) NonTrivial(c Case, _ []string) bool {
@@ -214,6 +214,20 @@ func (*pipeEng) Corpus(bool) []Case {
 				"unstall t=18", "quiesce t=19",
 			},
 		},
+		{
+			// a registration that is rejected after its first input was added to the dependency database (two
+			// inputs with equal keys), held at the watch set-up in between; a change of that first input's kind is
+			// in delivery meanwhile: the rejected controller must not be notified (it does not exist)
+			Header: fmt.Sprintf(pipeHeader, "", false, "corpus-rejected"),
+			Ops: []string{
+				"w t=1 typ=T1 id=a mut=setSpec:s1",
+				"reg t=2 p=1 fl=r in=T1/-/weak busy=0",
+				"start t=3", "quiesce t=4",
+				"stall t=15 p=100 in=T1/-/weak,T9/-/weak,T9/-/strong at=watch",
+				"w t=15 typ=T1 id=a mut=setSpec:s2",
+				"unstall t=15", "quiesce t=16",
+			},
+		},
 	}
 }
 
@@ -326,7 +340,14 @@ func (e *pipeEng) Gen(r *Rand, thorough bool, idx int) Case {
 
 		pool := [][2]string{b, {Pick(r, pipeTypes), Pick(r, pipeIDs)}}
 
-		stallWindow(e.genDecls(r, "r", mixed), a, pool, 2+r.Intn(5), r.Chance(1, 2))
+		blocker := e.genDecls(r, "r", mixed)
+		if r.Chance(1, 3) {
+			// a registration that will be rejected (two inputs with equal keys) after its first input — on the kind of
+			// the repeated key — was added to the dependency database; it is held at the watch set-up in between
+			blocker = Pick(r, []string{b[0], a[0]}) + "/-/" + Pick(r, []string{"weak", "strong"}) + ",T9/-/weak,T9/-/strong at=watch"
+		}
+
+		stallWindow(blocker, a, pool, 2+r.Intn(5), r.Chance(1, 2))
 	}
 
 	// some pre-existing resources
@@ -739,6 +760,28 @@ func (p *pipeProbe) line() string {
 	return s
 }
 
+// pipeStateProxy is the state the runtime sees: setting up the watch of type T9 (nothing else uses it) waits for
+// the gate of an open `stall at=watch` window. That call is made by UpdateInputs under Runtime.controllersMu,
+// after the inputs sorted before T9 have been added to the dependency database.
+type pipeStateProxy struct {
+	state.CoreState
+
+	mu   sync.Mutex
+	gate chan struct{}
+}
+
+func (p *pipeStateProxy) WatchKindAggregated(ctx context.Context, kind resource.Kind, ch chan<- []state.Event, opts ...state.WatchKindOption) error {
+	p.mu.Lock()
+	gate := p.gate
+	p.mu.Unlock()
+
+	if kind.Type() == "T9" && gate != nil {
+		<-gate
+	}
+
+	return p.CoreState.WatchKindAggregated(ctx, kind, ch, opts...)
+}
+
 func (e *pipeEng) Exec(t *testing.T, c Case) []string {
 	_, h := ParseLine(strings.TrimPrefix(c.Header, "#"))
 	out := make([]string, 0, len(c.Ops))
@@ -748,7 +791,8 @@ func (e *pipeEng) Exec(t *testing.T, c Case) []string {
 		defer cancel()
 
 		inner := namespaced.NewState(func(ns resource.Namespace) state.CoreState { return inmem.NewState(ns) })
-		st := state.WrapCore(inner)
+		proxy := &pipeStateProxy{CoreState: inner}
+		st := state.WrapCore(proxy)
 
 		var opts []options.Option
 
@@ -772,6 +816,7 @@ func (e *pipeEng) Exec(t *testing.T, c Case) []string {
 			stallGate chan struct{}
 			stallT    string
 			stallRes  string // result of a registration that was released implicitly, reported by the next `unstall`
+			stallP    string // the probe being registered
 		)
 
 		release := func() string {
@@ -784,7 +829,13 @@ func (e *pipeEng) Exec(t *testing.T, c Case) []string {
 			err := <-stallDone
 			stallDone, stallGate = nil, nil
 
+			proxy.mu.Lock()
+			proxy.gate = nil
+			proxy.mu.Unlock()
+
 			if err != nil {
+				delete(probes, stallP) // a rejected registration leaves no controller behind
+
 				return "reject"
 			}
 
@@ -865,7 +916,16 @@ func (e *pipeEng) Exec(t *testing.T, c Case) []string {
 
 					p := &pipeProbe{name: "p" + a["p"], flavour: "r", decls: pipeParseDecls(a["in"]), observed: map[string]uint64{}, gate: make(chan struct{})}
 					probes[a["p"]] = p
-					stallDone, stallGate, stallT = make(chan error, 1), p.gate, a["t"]
+					stallDone, stallGate, stallT, stallP = make(chan error, 1), p.gate, a["t"], a["p"]
+
+					if a["at"] == "watch" {
+						// hold the registration later: inside UpdateInputs, at the watch set-up of its T9 input
+						p.gate = nil
+
+						proxy.mu.Lock()
+						proxy.gate = stallGate
+						proxy.mu.Unlock()
+					}
 
 					go func(done chan error) { done <- rt.RegisterController(p) }(stallDone)
 
